@@ -1,26 +1,25 @@
 /-
 C32 — theorems.
 
-Full statement (FALSE of the code, kept visible): for every Range header in the grammar and every representation R,
-the answer is the expected one (`Spec.expected`): 206 with exactly the bytes of the single satisfiable range,
-multipart with one exact part per satisfiable range, 416 when none is satisfiable, 200 with everything otherwise.
-It fails for headers containing an unsatisfiable element (findings unsatisfiable-range-served-as-empty-206 and
-416-although-a-range-is-satisfiable) — witnesses below — and, outside the grammar, for signed suffix lengths
-(negative-length-206).  What is proved, for ALL inputs:
-  * `parseOne_exact`: the numeric core — a grammatical, satisfiable element is parsed to exactly the (start, length)
-    it denotes (int64 wrap-around included);
-  * `parsePieces_exact` / `parseRange_exact` (the `_partial` form of range_response_exact: hypothesis = every element
-    satisfiable, i.e. exactly the inputs of the open findings excluded): a grammatical header whose elements are all
-    satisfiable is parsed to exactly the list of denoted ranges, in order;
-  * `range_response_conforms_partial` (the FINAL step): for every grammatical header, size < 2^62 and content, the model's
-    answer — through `processRange`'s choice ignored-range/single/multipart/416 and `respond`'s bytes — satisfies the spec
-    judge `conforms (expected …)`, under the decidable hypothesis `outsideOpenFindings` = every element satisfiable, or
-    no element satisfiable and one of them beyond the size (⇒ 416); excluded are exactly the inputs of the open findings
-    (an element with first-byte-pos = size or suffix 0 / empty content without a rejected one: empty 206; a rejected
-    element next to a satisfiable one: 416 for the whole header; `bytes=--5` is outside the grammar);
-    `range_judge_passes_partial`: under the same hypothesis the complete judge `rangeJudge` passes on the model's answer;
+Full statement, now PROVED of the (repaired) code for every Range header in the grammar, every representation R below
+2^62 bytes: the answer is the expected one (`Spec.expected`): 206 with exactly the bytes of the single satisfiable range,
+multipart with one exact part per satisfiable range, 416 when none is satisfiable, 200 with everything otherwise
+(`range_response_conforms`, `range_judge_passes`).  It was false before the `fix:` commits of parseRange (an element that
+selects no byte served as an empty 206; one unsatisfiable element ⇒ 416 for the whole header; a signed suffix length
+⇒ negative length); the former witnesses are kept as `_repaired` theorems.  Steps:
+  * `parseOne_denote` / `parseOne_exact`: the numeric core — a grammatical element is parsed to exactly the
+    (start, length) it denotes when satisfiable (int64 wrap-around included), and skipped when not;
+  * `parsePieces_denote`, `range_response_exact`: a grammatical header is parsed to exactly the list of denoted
+    satisfiable ranges, in order (error when elements exist and none is satisfiable);
+  * `range_response_conforms` (the FINAL step): through `processRange`'s choice ignored-range/single/multipart/416 and
+    `respond`'s bytes the model's answer satisfies the spec judge `conforms (expected …)` — no hypothesis besides the
+    grammar and the size bound;
+  * `range_judge_passes`: the complete judge `rangeJudge` passes on the model's answer; `range_judge_passes_all`: also
+    for headers OUTSIDE the grammar (every answer is self-consistent: `answer_self_consistent`);
   * `answer_bytes_exact`: whatever the header, a 206 part with a positive length carries exactly the bytes its
-    Content-Range names when that range lies inside the content, and a 200 carries everything.
+    Content-Range names when that range lies inside the content, and a 200 carries everything;
+  * `gzip_only_if_accepted`: Content-Encoding: gzip only for a client whose Accept-Encoding accepts gzip (spec predicate
+    `clientAcceptsGzip`) — the substring test is repaired.
 -/
 import SwV.Model.C32
 import SwV.Spec.C32
@@ -39,205 +38,112 @@ theorem isDigit_not_sign (c : Char) (h : isDigit c = true) : c ≠ '+' ∧ c ≠
 theorem parseInt64_number (s : List Char) (v : Nat) (h : number s = some v) : parseInt64 s = some (v : Int) ∧ v < 2 ^ 63 :=
   SwV.Lemmas.C32.parseInt64_number s v h
 
-/-- MAIN numeric core: a grammatical element that is satisfiable for a representation of N bytes is parsed to exactly
-    the start and length it denotes -/
+/-- MAIN numeric core: a grammatical element is parsed to exactly the start and length it denotes when it is satisfiable
+    for a representation of N bytes, and skipped (not an error) when it is not -/
+theorem parseOne_denote (ra : List Char) (N : Nat) (sp : RSpec) (hN : N < 2 ^ 62) (hd : denoteOne ra = some sp) :
+    parseOne ra (N : Int) = SwV.Lemmas.C32.elemOf (satisfy N sp) :=
+  SwV.Lemmas.C32.parseOne_denote ra N sp hN hd
+
 theorem parseOne_exact (ra : List Char) (N : Nat) (sp : RSpec) (r : Nat × Nat) (hN : N < 2 ^ 62)
     (hd : denoteOne ra = some sp) (hs : satisfy N sp = some r) :
-    parseOne ra (N : Int) = some ⟨(r.1 : Int), (r.2 : Int)⟩ := by
-  unfold denoteOne at hd
-  unfold parseOne
-  cases hcut : cut '-' ra with
-  | none => simp [hcut] at hd
-  | some se =>
-    obtain ⟨s0, e0⟩ := se
-    simp only [hcut] at hd ⊢
-    by_cases hs0 : trimSpace s0 = []
-    · -- suffix form
-      simp only [hs0, if_true] at hd ⊢
-      cases hn : number (trimSpace e0) with
-      | none => simp [hn] at hd
-      | some n =>
-        simp only [hn, Option.some.injEq] at hd
-        subst hd
-        obtain ⟨hp, hlt⟩ := parseInt64_number _ _ hn
-        simp only [hp]
-        simp only [satisfy] at hs
-        by_cases hz : n = 0 ∨ N = 0
-        · simp [hz] at hs
-        · simp only [hz, if_false, Option.some.injEq] at hs
-          subst hs
-          have hn0 : n ≠ 0 := fun e => hz (Or.inl e)
-          have hN0 : N ≠ 0 := fun e => hz (Or.inr e)
-          by_cases hgt : (n : Int) > (N : Int)
-          · have hmin : min n N = N := by omega
-            simp only [hgt, if_true, hmin]
-            have e1 : wrap64 ((N : Int) - (N : Int)) = 0 := by rw [wrap64_id] <;> omega
-            rw [e1]
-            have e2 : wrap64 ((N : Int) - 0) = (N : Int) := by rw [wrap64_id] <;> omega
-            rw [e2]
-            simp
-          · have hmin : min n N = n := by omega
-            simp only [hgt, if_false, hmin]
-            have e1 : wrap64 ((N : Int) - (n : Int)) = ((N - n : Nat) : Int) := by rw [wrap64_id] <;> omega
-            rw [e1]
-            have e2 : wrap64 ((N : Int) - ((N - n : Nat) : Int)) = (n : Int) := by rw [wrap64_id] <;> omega
-            rw [e2]
-    · -- first-byte-pos form
-      simp only [hs0, if_false] at hd ⊢
-      cases hn : number (trimSpace s0) with
-      | none => simp [hn] at hd
-      | some a =>
-        simp only [hn] at hd
-        obtain ⟨hp, hlt⟩ := parseInt64_number _ _ hn
-        simp only [hp]
-        by_cases he0 : trimSpace e0 = []
-        · simp only [he0, if_true, Option.some.injEq] at hd ⊢
-          subst hd
-          simp only [satisfy] at hs
-          by_cases haN : a < N
-          · simp only [haN, if_true, Option.some.injEq] at hs
-            subst hs
-            have : ¬ ((a : Int) > (N : Int) ∨ (a : Int) < 0) := by omega
-            simp only [this, if_false]
-            congr 2
-            omega
-          · simp [haN] at hs
-        · simp only [he0, if_false] at hd ⊢
-          cases hm : number (trimSpace e0) with
-          | none => simp [hm] at hd
-          | some b =>
-            simp only [hm] at hd
-            obtain ⟨hq, hlt2⟩ := parseInt64_number _ _ hm
-            simp only [hq]
-            by_cases hab : a ≤ b
-            · simp only [hab, if_true, Option.some.injEq] at hd
-              subst hd
-              simp only [satisfy] at hs
-              by_cases haN : a < N
-              · simp only [haN, if_true, Option.some.injEq] at hs
-                subst hs
-                have h1 : ¬ ((a : Int) > (N : Int) ∨ (a : Int) < 0) := by omega
-                have h2 : ¬ ((a : Int) > (b : Int)) := by omega
-                simp only [h1, h2, if_false]
-                by_cases hbN : (b : Int) ≥ (N : Int)
-                · simp only [hbN, if_true]
-                  have : min b (N - 1) = N - 1 := by omega
-                  rw [this]
-                  congr 2
-                  omega
-                · simp only [hbN, if_false]
-                  have : min b (N - 1) = b := by omega
-                  rw [this]
-                  congr 2
-                  omega
-              · simp [haN] at hs
-            · simp [hab] at hd
+    parseOne ra (N : Int) = .range ⟨(r.1 : Int), (r.2 : Int)⟩ := by
+  rw [parseOne_denote ra N sp hN hd, hs]; rfl
 
-example : denoteOne "2-5".toList = some (.fromTo 2 5) ∧ satisfy 4 (.fromTo 2 5) = some (2, 2) := by decide
+theorem parseOne_skips (ra : List Char) (N : Nat) (sp : RSpec) (hN : N < 2 ^ 62)
+    (hd : denoteOne ra = some sp) (hs : satisfy N sp = none) : parseOne ra (N : Int) = .noOverlap := by
+  rw [parseOne_denote ra N sp hN hd, hs]; rfl
 
-/-- the list level: every element grammatical and satisfiable ⇒ parsed to exactly the denoted ranges, in order -/
-theorem parsePieces_exact (N : Nat) (hN : N < 2 ^ 62) :
-    ∀ (ps : List (List Char)) (specs : List RSpec), denotePieces ps = some specs →
-      (∀ sp ∈ specs, (satisfy N sp).isSome) →
-      parsePieces ps (N : Int) = some ((specs.filterMap (satisfy N)).map toRg) := by
-  intro ps
-  induction ps with
-  | nil => intro specs h _; simp [denotePieces] at h; subst h; rfl
-  | cons p rest ih =>
-    intro specs h hsat
-    simp only [denotePieces] at h
-    simp only [parsePieces]
-    by_cases hb : trimSpace p = []
-    · simp only [hb, if_true] at h ⊢
-      exact ih specs h hsat
-    · simp only [hb, if_false] at h ⊢
-      cases hd : denoteOne (trimSpace p) with
-      | none => simp [hd] at h
-      | some sp =>
-        simp only [hd] at h
-        cases hr : denotePieces rest with
-        | none => simp [hr] at h
-        | some sps =>
-          simp only [hr, Option.some.injEq] at h
-          subst h
-          have hsp := hsat sp (by simp)
-          cases hs : satisfy N sp with
-          | none => simp [hs] at hsp
-          | some r =>
-            have := parseOne_exact (trimSpace p) N sp r hN hd hs
-            simp only [this]
-            have ih' := ih sps hr (fun x hx => hsat x (by simp [hx]))
-            simp only [ih', List.filterMap_cons, hs, List.map_cons, toRg]
+example : denoteOne "2-5".toList = some (.fromTo 2 5) ∧ satisfy 4 (.fromTo 2 5) = some (2, 2) ∧
+    parseOne "2-5".toList 4 = .range ⟨2, 2⟩ := by decide
+example : denoteOne "4-5".toList = some (.fromTo 4 5) ∧ satisfy 4 (.fromTo 4 5) = none ∧
+    parseOne "4-5".toList 4 = .noOverlap := by decide
 
-/-- header level (`range_response_exact`, partial: all elements satisfiable): the ranges the answer is built from are
-    exactly the denoted ones; with `answer_bytes_exact` below every part then carries exactly the requested bytes.
-    (The last step through `processRange` — single vs multipart vs oversized sum — is covered by the correspondence
-    check and the judge `conforms`, not by a theorem.) -/
+/-- the list level: the satisfiable elements, in order; the flag records a skipped element -/
+theorem parsePieces_denote (N : Nat) (hN : N < 2 ^ 62) (ps : List (List Char)) (specs : List RSpec)
+    (hd : denotePieces ps = some specs) :
+    parsePieces ps (N : Int) = some ((specs.filterMap (satisfy N)).map toRg, SwV.Lemmas.C32.anyUnsat N specs) :=
+  SwV.Lemmas.C32.parsePieces_denote N hN ps specs hd
+
+/-- header level (`range_response_exact`): the ranges the answer is built from are exactly the denoted satisfiable ones,
+    in order — when there is one (or the header has no element at all); with `answer_bytes_exact` below every part then
+    carries exactly the requested bytes -/
+theorem range_response_exact (h : List Char) (N : Nat) (hN : N < 2 ^ 62) (specs : List RSpec)
+    (hd : denote h = some specs) (hne : specs.filterMap (satisfy N) = [] → specs = []) :
+    parseRange h (N : Int) = some ((specs.filterMap (satisfy N)).map toRg) :=
+  SwV.Lemmas.C32.parseRange_some h N hN specs hd hne
+
+/-- … and an error (416) when there are elements and none is satisfiable -/
+theorem range_unsatisfiable_exact (h : List Char) (N : Nat) (hN : N < 2 ^ 62) (specs : List RSpec)
+    (hd : denote h = some specs) (hs0 : specs ≠ []) (hnone : specs.filterMap (satisfy N) = []) :
+    parseRange h (N : Int) = none :=
+  SwV.Lemmas.C32.parseRange_none_of_unsat h N hN specs hd hs0 hnone
+
+/-- the former partial form (every element satisfiable) is a special case -/
 theorem range_response_exact_partial (h : List Char) (N : Nat) (hN : N < 2 ^ 62) (specs : List RSpec)
     (hd : denote h = some specs) (hsat : ∀ sp ∈ specs, (satisfy N sp).isSome) :
-    parseRange h (N : Int) = some ((specs.filterMap (satisfy N)).map toRg) := by
-  unfold denote at hd
-  unfold parseRange
-  by_cases he : h = []
-  · simp only [he, if_true, Option.some.injEq] at hd ⊢
-    subst hd; rfl
-  · simp only [he, if_false] at hd ⊢
-    cases hp : stripBytesPrefix h with
-    | none => simp [hp] at hd
-    | some rest =>
-      simp only [hp] at hd ⊢
-      exact parsePieces_exact N hN _ specs hd hsat
+    parseRange h (N : Int) = some ((specs.filterMap (satisfy N)).map toRg) :=
+  range_response_exact h N hN specs hd (SwV.Lemmas.C32.filterMap_eq_nil_of_all_some N specs hsat)
 
-/-- the inputs outside the open findings: every element satisfiable, or nothing satisfiable and an element that
-    `parseRange` rejects (first-byte-pos beyond the size) -/
-def outsideOpenFindings (specs : List RSpec) (N : Nat) : Bool :=
-  specs.all (fun sp => (satisfy N sp).isSome) ||
-    (specs.any (SwV.Lemmas.C32.beyond N) && specs.all (fun sp => (satisfy N sp).isNone))
-
-/-- FINAL STEP (`range_response_exact` down to the spec's judgement, partial: hypothesis = outside the open findings):
-    for every grammatical header, every content below 2^62 bytes, the answer of the model — `processRange`'s choice between
-    ignoring the header (no element / oversized sum ⇒ everything), a single 206, multipart, 416, and `respond`'s bytes —
-    conforms to what the specification expects.
-    FALSE without the hypothesis: `start_eq_size_witness`, `one_unsatisfiable_witness`, `not_conforming_witnesses`. -/
-theorem range_response_conforms_partial (h : List Char) (R : List Nat) (specs : List RSpec) (hN : R.length < 2 ^ 62)
-    (hd : denote h = some specs) (hx : outsideOpenFindings specs R.length = true) :
+/-- FINAL STEP (`range_response_exact` down to the spec's judgement), FULL for grammatical headers: for every grammatical
+    header, every content below 2^62 bytes, the answer of the model — `processRange`'s choice between ignoring the header
+    (no element / oversized sum ⇒ everything), a single 206, multipart, 416, and `respond`'s bytes — conforms to what the
+    specification expects.  (Before the parseRange `fix:` commits this needed the hypothesis `outsideOpenFindings`.) -/
+theorem range_response_conforms (h : List Char) (R : List Nat) (specs : List RSpec) (hN : R.length < 2 ^ 62)
+    (hd : denote h = some specs) :
     conforms (expected specs R.length) R (respond h R) = true := by
-  simp only [outsideOpenFindings, Bool.or_eq_true, Bool.and_eq_true, List.all_eq_true] at hx
-  rcases hx with hsat | ⟨hb, hnone⟩
-  · exact SwV.Lemmas.C32.respond_conforms_of_parse h R specs hN (SwV.Lemmas.C32.denote_nil_iff h specs hd) hsat
-      (range_response_exact_partial h R.length hN specs hd hsat)
-  · exact SwV.Lemmas.C32.respond_conforms_unsat h R specs hd hb
-      (fun sp hsp => by simpa using hnone sp hsp)
+  by_cases hne : specs.filterMap (satisfy R.length) = [] → specs = []
+  · exact SwV.Lemmas.C32.respond_conforms_of_parse h R specs hN (SwV.Lemmas.C32.denote_nil_iff h specs hd) hne
+      (range_response_exact h R.length hN specs hd hne)
+  · have hnone : specs.filterMap (satisfy R.length) = [] := Classical.byContradiction fun c => hne (fun e => absurd e c)
+    have hs0 : specs ≠ [] := fun e => hne (fun _ => e)
+    exact SwV.Lemmas.C32.respond_conforms_unsat h R specs hN hd hs0 hnone
 
 /-- … and therefore the COMPLETE judge the driver runs over the implementation's answers (`rangeJudge`: a 200 carries
     everything, no empty/negative range, bytes = what Content-Range names, answer = expectation) passes on the model's
-    answer: with zero DIFF in the correspondence check, judge verdicts on such inputs are verdicts on real differences -/
-theorem range_judge_passes_partial (h : List Char) (R : List Nat) (specs : List RSpec) (hN : R.length < 2 ^ 62)
-    (hd : denote h = some specs) (hx : outsideOpenFindings specs R.length = true) :
+    answer: with zero DIFF in the correspondence check, judge verdicts are verdicts on real differences -/
+theorem range_judge_passes (h : List Char) (R : List Nat) (specs : List RSpec) (hN : R.length < 2 ^ 62)
+    (hd : denote h = some specs) :
     rangeJudge h R (respond h R) = none :=
-  SwV.Lemmas.C32.rangeJudge_none_of_conforms h R specs _ hd (range_response_conforms_partial h R specs hN hd hx)
+  SwV.Lemmas.C32.rangeJudge_none_of_conforms h R specs _ hd (range_response_conforms h R specs hN hd)
 
 example : rangeJudge "bytes=0-0, -1".toList [7, 8, 9] (respond "bytes=0-0, -1".toList [7, 8, 9]) = none := by decide
 
--- non-vacuity: a single range, a multipart answer, an oversized sum, a 416, the absent header
-example : denote "bytes=1-2".toList = some [.fromTo 1 2] ∧ outsideOpenFindings [.fromTo 1 2] 3 = true ∧
+-- non-vacuity: a single range, a multipart answer, an oversized sum, a 416, the absent header, and the inputs of the
+-- former findings (skipped elements)
+example : denote "bytes=1-2".toList = some [.fromTo 1 2] ∧
     respond "bytes=1-2".toList [7, 8, 9] = .single ⟨1, 2⟩ [8, 9] := by decide
-example : denote "bytes=0-0, -1".toList = some [.fromTo 0 0, .suffix 1] ∧ outsideOpenFindings [.fromTo 0 0, .suffix 1] 3 = true ∧
+example : denote "bytes=0-0, -1".toList = some [.fromTo 0 0, .suffix 1] ∧
     respond "bytes=0-0, -1".toList [7, 8, 9] = .multi [(⟨0, 1⟩, [7]), (⟨2, 1⟩, [9])] := by decide
-example : outsideOpenFindings [.from 0, .from 1] 3 = true ∧ respond "bytes=0-,1-".toList [7, 8, 9] = .full [7, 8, 9] := by decide
-example : denote "bytes=5-6,4-".toList = some [.fromTo 5 6, .from 4] ∧ outsideOpenFindings [.fromTo 5 6, .from 4] 3 = true ∧
+example : respond "bytes=0-,1-".toList [7, 8, 9] = .full [7, 8, 9] := by decide
+example : denote "bytes=5-6,4-".toList = some [.fromTo 5 6, .from 4] ∧
     respond "bytes=5-6,4-".toList [7, 8, 9] = .unsat := by decide
-example : denote [] = some [] ∧ outsideOpenFindings [] 3 = true := by decide
+example : denote "bytes=3-, 0-0,-0, 1-".toList = some [.from 3, .fromTo 0 0, .suffix 0, .from 1] ∧
+    respond "bytes=3-, 0-0,-0, 1-".toList [7, 8, 9] = .multi [(⟨0, 1⟩, [7]), (⟨1, 2⟩, [8, 9])] := by decide
+example : denote [] = some [] ∧ respond [] [7, 8, 9] = .full [7, 8, 9] := by decide
 
-/-- the hypothesis is needed: on the inputs of the open findings the model's (= the code's) answer does not conform -/
-theorem not_conforming_witnesses :
-    (outsideOpenFindings [.from 3] 3 = false ∧
-      conforms (expected [.from 3] 3) [1, 2, 3] (respond "bytes=3-".toList [1, 2, 3]) = false) ∧
-    (outsideOpenFindings [.suffix 0] 3 = false ∧
-      conforms (expected [.suffix 0] 3) [1, 2, 3] (respond "bytes=-0".toList [1, 2, 3]) = false) ∧
-    (outsideOpenFindings [.fromTo 0 1, .fromTo 5 6] 3 = false ∧
-      conforms (expected [.fromTo 0 1, .fromTo 5 6] 3) [1, 2, 3] (respond "bytes=0-1,5-6".toList [1, 2, 3]) = false) ∧
-    denote "bytes=--5".toList = none := by decide
+/-- whatever the header (grammatical or not): every range `parseRange` returns is non-empty and inside the content … -/
+theorem parsed_ranges_inside (h : List Char) (N : Nat) (hN : N < 2 ^ 63) (rs : List Rg)
+    (hp : parseRange h (N : Int) = some rs) : ∀ r ∈ rs, 0 ≤ r.start ∧ 0 < r.length ∧ r.start + r.length ≤ (N : Int) :=
+  SwV.Lemmas.C32.parseRange_inside h N (by omega) (by omega) rs hp
+
+/-- … so every answer is self-consistent: no empty or negative range, every 206 part carries exactly the bytes its
+    Content-Range names, a 200 carries everything -/
+theorem answer_self_consistent (h : List Char) (R : List Nat) (hN : R.length < 2 ^ 63) :
+    rgNonPositive (respond h R) = none ∧ consistent R (respond h R) = true :=
+  SwV.Lemmas.C32.respond_self_consistent h R hN
+
+/-- the complete judge passes on the model's answer for EVERY header: the expectation for a header of the grammar,
+    self-consistency for any other -/
+theorem range_judge_passes_all (h : List Char) (R : List Nat) (hN : R.length < 2 ^ 62) :
+    rangeJudge h R (respond h R) = none := by
+  cases hd : denote h with
+  | some specs => exact range_judge_passes h R specs hN hd
+  | none =>
+    have hc := answer_self_consistent h R (by omega)
+    exact SwV.Lemmas.C32.rangeJudge_none_outside_grammar h R _ hd hc.1 hc.2
+
+example : denote "bytes=0-1-2, +1-,x".toList = none ∧ denote "bytes=-+2".toList = none ∧
+    respond "bytes=-+2".toList [7, 8, 9] = .single ⟨1, 2⟩ [8, 9] ∧ respond "bytes=0-1-2".toList [7, 8, 9] = .unsat := by decide
 
 /-- whatever the header: the bytes of an answer are exactly what its status line and Content-Range announce -/
 theorem answer_bytes_exact (h : List Char) (R : List Nat) :
@@ -266,50 +172,70 @@ theorem answer_bytes_exact (h : List Char) (R : List Nat) :
     have : ¬ (r.length ≤ 0 ∨ r.start < 0) := by omega
     simp [slice, this]
 
-/-! ## witnesses: the full statement is false (the three open findings), the repaired defect stays repaired -/
+/-! ## the repaired defects stay repaired (former witnesses of the open findings) -/
 
-/-- first-byte-pos = size: an empty 206 instead of 416 -/
-theorem start_eq_size_witness :
-    respond "bytes=3-".toList [1, 2, 3] = .single ⟨3, 0⟩ [] ∧
-    expected [.from 3] 3 = .unsat := by decide
+/-- repaired (fix: parseRange, range that selects no byte): first-byte-pos = size and suffix 0 are unsatisfiable — 416 when
+    alone, skipped next to a satisfiable range; nothing for an empty content -/
+theorem start_eq_size_repaired :
+    respond "bytes=3-".toList [1, 2, 3] = .unsat ∧ expected [.from 3] 3 = .unsat ∧
+    respond "bytes=3-3".toList [1, 2, 3] = .unsat ∧ respond "bytes=-0".toList [1, 2, 3] = .unsat ∧
+    respond "bytes=0-0,3-".toList [1, 2, 3] = .single ⟨0, 1⟩ [1] ∧
+    respond "bytes=-5".toList [] = .unsat ∧ respond "bytes=0-".toList [] = .unsat := by decide
 
-/-- a signed suffix length: start beyond the end, negative length -/
-theorem negative_suffix_witness : respond "bytes=--5".toList [1, 2, 3] = .single ⟨8, -5⟩ [] := by decide
+/-- repaired (fix: parseRange, signed suffix length): `bytes=--5` is an invalid range -/
+theorem negative_suffix_repaired :
+    respond "bytes=--5".toList [1, 2, 3] = .unsat ∧ parseRange "bytes=0-1,--2".toList 3 = none ∧
+    denote "bytes=--5".toList = none := by decide
 
-/-- one unsatisfiable element fails the whole header -/
-theorem one_unsatisfiable_witness :
-    respond "bytes=0-1,5-6".toList [1, 2, 3] = .unsat ∧
-    expected [.fromTo 0 1, .fromTo 5 6] 3 = .single (0, 2) := by decide
+/-- repaired (fix: parseRange, noOverlap): one unsatisfiable element no longer fails the whole header -/
+theorem one_unsatisfiable_repaired :
+    respond "bytes=0-1,5-6".toList [1, 2, 3] = .single ⟨0, 2⟩ [1, 2] ∧
+    expected [.fromTo 0 1, .fromTo 5 6] 3 = .single (0, 2) ∧
+    respond "bytes=5-6,7-".toList [1, 2, 3] = .unsat := by decide
 
 /-- repaired (fix: 843c0161): an ignored range request (oversized sum, empty list) serves the whole content -/
 theorem ignored_range_serves_everything :
     respond "bytes=0-,0-".toList [1, 2, 3] = .full [1, 2, 3] ∧ respond "bytes=".toList [1, 2, 3] = .full [1, 2, 3] := by decide
 
-/-- gzip is announced only if the header mentions it … -/
-theorem gzip_only_if_mentioned (b : Blob) (ae : List Char) (h : (represent b ae).2 = true) :
-    containsSub gzipWord ae = true ∧ b.compressed = true ∧ (represent b ae).1 = b.stored := by
+/-- gzip is announced only to a client that accepts it (spec predicate: coding gzip / x-gzip / * with q ≠ 0), only for a
+    needle flagged compressed, and then the stored bytes are served -/
+theorem gzip_only_if_accepted (b : Blob) (ae : List Char) (h : (represent b ae).2 = true) :
+    clientAcceptsGzip ae = true ∧ b.compressed = true ∧ (represent b ae).1 = b.stored := by
   unfold represent at h ⊢
   by_cases hc : b.compressed = true
-  · by_cases hg : (containsSub gzipWord ae && isGzMagic b.stored) = true
+  · by_cases hg : (acceptsGzip ae && isGzMagic b.stored) = true
     · simp only [hc, hg, if_true]
       simp only [Bool.and_eq_true] at hg
-      exact ⟨hg.1, trivial, trivial⟩
+      exact ⟨SwV.Lemmas.C32.clientAccepts_of_acceptsGzip ae hg.1, trivial, trivial⟩
     · simp [hc, hg] at h
   · simp [hc] at h
+
+/-- the encoding judge passes on the model's choice -/
+theorem encoding_judge_passes (b : Blob) (ae : List Char) : encodingJudge ae (represent b ae).2 = none := by
+  unfold encodingJudge
+  by_cases h : (represent b ae).2 = true
+  · simp [h, (gzip_only_if_accepted b ae h).1]
+  · simp [h]
 
 /-- … and a client that sends no Accept-Encoding gets the decompressed bytes -/
 theorem no_accept_encoding_gets_plain (b : Blob) : represent b [] = (if b.compressed then b.plain else b.stored, false) := by
   unfold represent
-  cases b.compressed <;> simp [containsSub, gzipWord]
+  cases b.compressed <;> simp [acceptsGzip, splitOn, elemListsGzip, trimSpace, gzipWord]
 
-/-- … but substring matching is not acceptance (open finding gzip-for-client-not-accepting-it) -/
-theorem gzip_q0_witness :
-    (represent ⟨true, [1], [31, 139, 8]⟩ "gzip;q=0".toList).2 = true ∧ clientAcceptsGzip "gzip;q=0".toList = false := by decide
+/-- repaired (fix: GetOrHeadHandler, Accept-Encoding read element by element): no gzip for `gzip;q=0` or `notgzipped`;
+    still gzip for the clients that accept it -/
+theorem gzip_q0_repaired :
+    (represent ⟨true, [1], [31, 139, 8]⟩ "gzip;q=0".toList).2 = false ∧ clientAcceptsGzip "gzip;q=0".toList = false ∧
+    (represent ⟨true, [1], [31, 139, 8]⟩ "notgzipped".toList).2 = false ∧
+    (represent ⟨true, [1], [31, 139, 8]⟩ "br, GZip;q=0.5".toList) = ([31, 139, 8], true) ∧
+    (represent ⟨true, [1], [31, 139, 8]⟩ "deflate;q=0, x-gzip".toList).2 = true := by decide
 
-/-- bridges: an edit of the range code breaks this obligation (the model has to be re-read against the new text) -/
+/-- bridges: an edit of the range code or of the handler's choice of representation breaks this obligation (the model has
+    to be re-read against the new text) -/
 theorem bridge_source_pins :
-    SwV.Gen.C32.src_parseRange = "ecf779ad501a5491" ∧ SwV.Gen.C32.src_sumRangesSize = "e3fc3a256a1357bb" ∧
-    SwV.Gen.C32.src_processRangeRequest = "f6f3c151ec6730bf" ∧ SwV.Gen.C32.src_writeResponseContent = "803357dac01be84b" := by
+    SwV.Gen.C32.src_parseRange = "684a0421bcfe612c" ∧ SwV.Gen.C32.src_sumRangesSize = "e3fc3a256a1357bb" ∧
+    SwV.Gen.C32.src_processRangeRequest = "f6f3c151ec6730bf" ∧ SwV.Gen.C32.src_writeResponseContent = "803357dac01be84b" ∧
+    SwV.Gen.C32.src_acceptsGzip = "a9f1497fbecd8a17" ∧ SwV.Gen.C32.src_GetOrHeadHandler = "6663ce426a867015" := by
   decide
 
 end SwV.Props.C32
